@@ -4,3 +4,6 @@
 NOT_APPLICABLE = {}
 # hook commits in /repo (MANIFEST.hooks.source_commits)
 HOOK_COMMITS = ['ccf9035', 'f508266']
+
+# checks that are finished and registered in MANIFEST.json (others stay under not_applicable until ready)
+READY = ['C04', 'C14']
